@@ -56,7 +56,7 @@ def cases(tier):
     # networks with a part that is calculated hydraulically but has no temperature source (p-type feeder)
     from mc.checks import c04
     for mode in ("sequential", "bidirectional"):
-        for number in (0, 1, 8, 9, 64):
+        for number in (9, 24, 32, 66, 80):   # patterns that the solver returns and that leave a thermally unsupplied part
             out.append({"kind": "T", "base": {"scope": "E", "mode": mode, "number": number}, "tier": tier})
     for lc in c11.cases("quick"):
         if lc["pump"] == "circ_pump_pressure" and lc["u"] == 10.0:
